@@ -134,7 +134,11 @@ pub fn c15(rec: &mut Rec, lm: &Landmarks, rng: &mut Rng, thorough: bool) {
     let n = if thorough { 6_000 } else { 300 };
     for _ in 0..n {
         let sts = *rng.pick(&crate::rec::SCALES);
-        let start = Epoch::from_duration(g.any_elapsed(rng, sts), sts);
+        // within +/- 10 000 years: a series whose start or end cannot be re-expressed in the other
+        // scale without hitting a duration bound is outside the statement
+        let span10k = 100 * NPC as i128;
+        let sv = if rng.chance(1, 4) { *rng.pick(&g.leaps) } else { (rng.i128().rem_euclid(2 * span10k)) - span10k };
+        let start = Epoch::from_duration(ns_dur(sv), sts);
         let step = match rng.below(4) {
             0 => ns_dur(1 + rng.below(10) as i128),
             1 => ns_dur(rng.below(NS_DAY) as i128 + 1),
